@@ -106,10 +106,39 @@ def rackTopic (ms : List Member) (ps : List Part) (a : Asg) (ids : List Nat) (t 
 def answer (model : String) (holds : Bool) : String :=
   s!"model={model} holds={if holds then 1 else 0}"
 
+def parseIdList (s : String) : Option (List (String × List Nat)) :=
+  if s == "-" then some [] else (s.splitOn ",").mapM fun i => (parseId i).map fun b => (i, b)
+
+/-- helpers of groupbalancer.go (through the verif export hook) -/
+def stepHelper (op a b impl : String) : String :=
+  match op with
+  | "fmbt" =>
+    match parseList parseMember a, b.toNat?, parseIdList impl with
+    | some rms, some t, some got =>
+      let w := (rms.map (·.idBytes.length) ++ got.map (·.2.length)).foldl max 0
+      let ms : List Member := rms.map fun r => ⟨embed w r.idBytes, r.topics, r.zone⟩
+      let hexOf (i : Nat) : String := ((rms.find? (fun r => embed w r.idBytes == i)).map (·.idHex)).getD "?"
+      let model := (findMembersByTopic ms t).map (fun m => hexOf m.id)
+      let gotN := got.map fun g => embed w g.2
+      -- reference: a permutation of the subscribers' ids without inversions
+      let holds := !decide (WellFormed ms) ||
+        (decide (gotN.Perm ((subscribers ms t).map (·.id))) && decide (gotN.Pairwise (· ≤ ·)))
+      answer (if model.isEmpty then "-" else ",".intercalate model) holds
+    | _, _, _ => "bad-args"
+  | "fparts" =>
+    match a.toNat?, parseList parsePart b, parseInts impl with
+    | some t, some ps, some got =>
+      let model := findPartitions t ps
+      answer (if model.isEmpty then "-" else showInts model) (got == partsOf t ps)
+    | _, _, _ => "bad-args"
+  | _ => "bad-op"
+
 def step (line : String) : String :=
   match line.splitOn " => " with
   | [req, impl] =>
     match words req with
+    | ["fmbt", a, b] => stepHelper "fmbt" a b impl
+    | ["fparts", a, b] => stepHelper "fparts" a b impl
     | [op, msS, psS] =>
       match parseList parseMember msS, parseList parsePart psS, parseList parseEntry (if impl == "panic" then "-" else impl) with
       | some rms, some ps, some res =>
